@@ -30,9 +30,13 @@ Definition version_or_none (t : state) : bool :=
   sym_eqb (got t "version") (SArg "version") || sym_eqb (got t "version") (SConst "None").
 Definition taxii_weak_ok (E : entry) (t : state) : bool := version_or_none t && interop_ok E t && allow_ok E t.
 
-Definition taxii_weak_check (T : table) (E : entry) : bool :=
-  entry_closed T E && state_mem (e_init E) (map fst (reach T E))
-  && forallb (fun x => wellformed (fst x) && (negb (is_terminal (fst x)) || taxii_weak_ok E (fst x))) (reach T E).
+(* stated over an arbitrary list R and instantiated with (reach T E) by application only:
+   the kernel must never be asked to unfold a constant against a term containing reach *)
+Definition good_on (E : entry) (R : visited) : bool :=
+  forallb (fun x => wellformed (fst x) && (negb (is_terminal (fst x)) || terminal_ok E (fst x))) R.
+Definition taxii_weak_on (T : table) (E : entry) (R : visited) : bool :=
+  closedb T (map fst R) && state_mem (e_init E) (map fst R)
+  && forallb (fun x => wellformed (fst x) && (negb (is_terminal (fst x)) || taxii_weak_ok E (fst x))) R.
 
 Definition in_scope_check (T : table) : bool := forallb (fun E => taxii_entry E || entry_check T E) (entries T).
 Definition covered_check (T : table) : bool :=
@@ -40,9 +44,36 @@ Definition covered_check (T : table) : bool :=
   && forallb (fun E => existsb (fun x => is_terminal (fst x)) (reach T E)) (entries T).
 Definition taxii_check (T : table) : bool :=
   forallb (fun E => negb (taxii_entry E) ||
-                    (if smem (e_name E) taxii_reparse then taxii_weak_check T E && negb (entry_good T E)
+                    (if smem (e_name E) taxii_reparse then taxii_weak_on T E (reach T E) && negb (good_on E (reach T E))
                      else entry_check T E)) (entries T).
 Definition site_check (T : table) : bool := parser_core_ok T && id_sites_ok T && embedded_sites_ok T.
+
+Lemma taxii_weak_on_spec : forall T E R, taxii_weak_on T E R = true ->
+  forall s, reachable T (e_init E) s -> is_terminal s = true ->
+    wellformed s = true /\ In s (map fst R) /\ version_or_none s = true /\ interop_ok E s = true.
+Proof.
+  intros T E R H s Hr Ht. unfold taxii_weak_on in H.
+  apply andb_true_iff in H as [H12 Hg]. apply andb_true_iff in H12 as [Hc Hi].
+  apply state_mem_In in Hi. pose proof (closed_invariant T _ _ Hc Hi s Hr) as Hin. split; [|split; [exact Hin|]].
+  - apply in_map_iff in Hin as [x [Hx Hinx]]. subst s.
+    rewrite forallb_forall in Hg. specialize (Hg x Hinx). apply andb_true_iff in Hg as [Hw _]. exact Hw.
+  - apply in_map_iff in Hin as [x [Hx Hinx]]. subst s.
+    rewrite forallb_forall in Hg. specialize (Hg x Hinx). apply andb_true_iff in Hg as [_ Hg].
+    apply orb_true_iff in Hg as [Hg|Hg]; [rewrite Ht in Hg; discriminate|]. unfold taxii_weak_ok in Hg.
+    apply andb_true_iff in Hg as [Hg _]. apply andb_true_iff in Hg as [Hv Hio]. auto.
+Qed.
+
+Lemma weak_not_good_on : forall T E R, taxii_weak_on T E R = true -> good_on E R = false ->
+  exists x, In x R /\ is_terminal (fst x) = true /\ terminal_ok E (fst x) = false.
+Proof.
+  intros T E R Hw Hb. unfold taxii_weak_on in Hw. apply andb_true_iff in Hw as [_ Hg]. unfold good_on in Hb.
+  induction R as [|y l IH]; simpl in Hb. discriminate.
+  simpl in Hg. apply andb_true_iff in Hg as [Hy Hl].
+  apply andb_false_iff in Hb as [Hb|Hb].
+  - exists y. split. left. reflexivity. apply andb_true_iff in Hy as [Hwf _]. rewrite Hwf in Hb. simpl in Hb.
+    apply orb_false_iff in Hb as [Hterm Hok]. apply negb_false_iff in Hterm. auto.
+  - destruct (IH Hl Hb) as [x [Hx Hf]]. exists x. split. right. exact Hx. exact Hf.
+Qed.
 
 Section AnyTable.
 Variable T : table.
@@ -119,7 +150,7 @@ Qed.
 (* ---- the TAXII source / sink / store (in the table, not drivable here) ---- *)
 Lemma taxii_all :
   forallb (fun E => negb (taxii_entry E) ||
-                    (if smem (e_name E) taxii_reparse then taxii_weak_check T E && negb (entry_good T E)
+                    (if smem (e_name E) taxii_reparse then taxii_weak_on T E (reach T E) && negb (good_on E (reach T E))
                      else entry_check T E)) (entries T) = true.
 Proof. exact taxii_all0. Qed.
 
@@ -132,13 +163,8 @@ Proof.
   intros E HE Hs s Hr Ht. pose proof taxii_all as H. rewrite forallb_forall in H. specialize (H E HE).
   apply orb_true_iff in H as [H|H]; [rewrite Hs in H; discriminate|].
   destruct (smem (e_name E) taxii_reparse) eqn:Hm.
-  - apply andb_true_iff in H as [H _]. unfold taxii_weak_check in H.
-    apply andb_true_iff in H as [H12 Hg]. apply andb_true_iff in H12 as [Hc Hi].
-    apply state_mem_In in Hi. pose proof (closed_invariant T _ _ Hc Hi s Hr) as Hin.
-    apply in_map_iff in Hin as [x [Hx Hinx]]. subst s.
-    rewrite forallb_forall in Hg. specialize (Hg x Hinx). apply andb_true_iff in Hg as [_ Hg].
-    apply orb_true_iff in Hg as [Hg|Hg]; [rewrite Ht in Hg; discriminate|]. unfold taxii_weak_ok in Hg.
-    apply andb_true_iff in Hg as [Hg _]. apply andb_true_iff in Hg as [Hv Hio]. split; [|split].
+  - apply andb_true_iff in H as [H _].
+    destruct (taxii_weak_on_spec T E _ H s Hr Ht) as [_ [_ [Hv Hio]]]. split; [|split].
     + intro Hn. exfalso. apply Hn. apply smem_In. exact Hm.
     + unfold version_or_none in Hv. apply orb_true_iff in Hv as [Hv|Hv]; apply sym_eqb_eq in Hv; auto.
     + apply sym_eqb_eq in Hio. rewrite Hio. apply interop_expected_not_version.
@@ -159,16 +185,8 @@ Proof.
   { unfold taxii_entry. simpl in Hn. destruct Hn as [<-|[<-|[]]]; reflexivity. }
   apply orb_true_iff in H as [H|H]; [rewrite Ht in H; discriminate|].
   apply smem_In in Hn. rewrite Hn in H.
-  apply andb_true_iff in H as [Hw Hb]. apply negb_true_iff in Hb. unfold entry_good in Hb.
-  (* some reached state fails; it is well formed (weak check), so it is a failing terminal *)
-  unfold taxii_weak_check in Hw. apply andb_true_iff in Hw as [_ Hg].
-  assert (exists x, In x (reach T E) /\ (wellformed (fst x) && (negb (is_terminal (fst x)) || terminal_ok E (fst x))) = false) as [x [Hx Hf]].
-  { clear -Hb. induction (reach T E) as [|y l IH]; simpl in Hb. discriminate.
-    apply andb_false_iff in Hb as [Hb|Hb].
-    - exists y. split. left. reflexivity. exact Hb.
-    - destruct (IH Hb) as [x [Hx Hf]]. exists x. split. right. exact Hx. exact Hf. }
-  rewrite forallb_forall in Hg. specialize (Hg x Hx). apply andb_true_iff in Hg as [Hwf _].
-  rewrite Hwf in Hf. simpl in Hf. apply orb_false_iff in Hf as [Hterm Hok]. apply negb_false_iff in Hterm.
+  apply andb_true_iff in H as [Hw Hb]. apply negb_true_iff in Hb.
+  destruct (weak_not_good_on T E _ Hw Hb) as [x [Hx [Hterm Hok]]].
   exists (fst x). repeat split; auto. apply reach_reachable. exact Hx.
 Qed.
 
@@ -272,31 +290,33 @@ Lemma gen_sites : site_check Tgen = true.
 Proof. vm_compute. reflexivity. Qed.
 
 (* ---- the defective variant (frozen excerpt of the pinned table) ---- *)
-Definition pinned_witness : option (entry * (state * list string)) :=
-  match find_entry pinned_defective "memory.MemorySink.add" with
-  | Some E => match bad_reaches pinned_defective E with x :: _ => Some (E, x) | [] => None end
-  | None => None
+Definition witness_check (T : table) (n : string) (P : state -> bool) : bool :=
+  match find_entry T n with
+  | Some E => existsb (fun x => P (fst x)) (reach T E)
+  | None => false
   end.
 
-Lemma find_entry_In : forall T0 n E, find_entry T0 n = Some E -> In E (entries T0) /\ e_name E = n.
+Lemma witness_check_spec : forall T n P, witness_check T n P = true ->
+  exists E s, In E (entries T) /\ e_name E = n /\ reachable T (e_init E) s /\ P s = true.
 Proof.
-  intros T0 n E H. unfold find_entry in H. apply find_some in H as [H1 H2]. split; auto.
-  apply String.eqb_eq in H2. exact H2.
+  intros T n P H. unfold witness_check in H. destruct (find_entry T n) as [E|] eqn:Hf; [|discriminate].
+  unfold find_entry in Hf. apply find_some in Hf as [H1 H2]. apply String.eqb_eq in H2.
+  apply existsb_exists in H as [x [Hx HP]]. exists E, (fst x). repeat split; auto.
+  apply reach_reachable. exact Hx.
 Qed.
+
+Definition positional_defect_state (s : state) : bool :=
+  is_terminal s && sym_eqb (got s "interoperability") (SArg "version") && sym_eqb (got s "version") (SConst "None").
+
+Lemma pinned_check : witness_check pinned_defective "memory.MemorySink.add" positional_defect_state = true.
+Proof. vm_compute. reflexivity. Qed.
 
 Lemma store_call_sites_positional_refuted_pf :
   exists E s, In E (entries pinned_defective) /\ e_name E = "memory.MemorySink.add"
     /\ reachable pinned_defective (e_init E) s /\ is_terminal s = true
     /\ got s "interoperability" = SArg "version" /\ got s "version" = SConst "None".
 Proof.
-  destruct pinned_witness as [[E x]|] eqn:Hw; [|vm_compute in Hw; discriminate].
-  pose proof Hw as Hc. unfold pinned_witness in Hw.
-  destruct (find_entry pinned_defective "memory.MemorySink.add") as [E0|] eqn:Hf; [|discriminate].
-  destruct (bad_reaches pinned_defective E0) as [|x0 rest] eqn:Hb; [discriminate|].
-  inversion Hw; subst E0 x0. clear Hw.
-  destruct (find_entry_In _ _ _ Hf) as [HE Hn].
-  assert (In x (bad_reaches pinned_defective E)) as Hx by (rewrite Hb; left; reflexivity).
-  destruct (bad_reaches_fail _ _ _ Hx) as [Hr _].
-  exists E, (fst x). split; [exact HE|]. split; [exact Hn|]. split; [exact Hr|].
-  vm_compute in Hc. inversion Hc. repeat split.
+  destruct (witness_check_spec _ _ _ pinned_check) as [E [s [HE [Hn [Hr HP]]]]].
+  unfold positional_defect_state in HP. apply andb_true_iff in HP as [HP H3]. apply andb_true_iff in HP as [H1 H2].
+  apply sym_eqb_eq in H2, H3. exists E, s. repeat split; auto.
 Qed.
